@@ -16,6 +16,7 @@
  *   M hex / B hex n / K hex c  mbswidth / byte2col / col2byte
  *   U cp len null              tickit_utf8_put into a len-byte buffer (or NULL)
  *   S cp                       tickit_utf8_seqlen
+ *   W cp                       tickit_utf8_wcwidth (static, reached through the #include)
  */
 #define _GNU_SOURCE
 #include "tickit.h"
@@ -176,6 +177,7 @@ int main(void)
         break;
       }
       case 'S': printf("%d\n", tickit_utf8_seqlen(vh_int(1))); break;
+      case 'W': printf("%d\n", tickit_utf8_wcwidth((uint32_t)vh_int(1))); break;
       default: printf("ERR op\n");
     }
     fflush(stdout);
